@@ -60,7 +60,7 @@ P = {
     "C17": ("structure-aware fault injection with an exception-type oracle", "4 C17",
             "Generated truncations, bit flips and per-member faults are applied to real files; Document(path) must return or raise one of the three library error types while the loader is on the stack.",
             "Exceptions raised after the container loader returned are out of scope and only counted."),
-    "C18": ("exhaustive short strings + PBT + corpus + coverage-guided fuzzing with a lossless/total oracle", "4 C18",
+    "C18": ("exhaustive short strings + PBT + reader-output corpus with a lossless/total oracle", "4 C18",
             "All short strings over the tokenizer's alphabet, generated strings, every formula text the reader emits for fixtures and generated references are tokenized; only TokenizerError may escape and tokens must concatenate to the input.",
             "The alphabet is the property's; longer strings are sampled."),
     "C19": ("model-based stateful PBT", "4 C19",
@@ -90,7 +90,7 @@ for pid, (tech, ref, text, note) in P.items():
 
 manifest = {
     "version": 1,
-    "setup_cmd": "/venv/bin/pip install -q --no-index --find-links /opt/veriftools/wheels hypothesis && (/venv/bin/pip install -q --no-index --find-links /opt/veriftools/wheels --target /verif/.deps atheris || true)",
+    "setup_cmd": "/venv/bin/pip install -q --no-index --find-links /opt/veriftools/wheels hypothesis",
     "hooks": {
         "guard": "NUMBERS_PARSER_VERIF",
         "enable": "no hooks are needed: checks import the working tree (VERIF_REPO, default /repo) in a fresh interpreter",
